@@ -67,7 +67,10 @@ def run(prop, tier, seed):
     rng = random.Random(seed + 7)
     quick = tier == "quick"
     plan = [("UnitSquare", 2, 2, 2), ("PiSquare", 1, 2, 2), ("LShape", 1, 2, 2), ("Circle", 4, 2, 2), ("UnitInterval", 2, 2, 2),
-            ("ThinRect", 0, 2, 2)]
+            ("ThinRect", 0, 2, 2),
+            # deeply refined trial elements (h_x = 2^-8 ... 2^-12 of a side): end points where the distance to the nearest
+            # quadrature node is 1e-4 h_x and any loss of relative accuracy in the squared distance shows
+            ("UnitSquare", 12, 2, 2), ("Circle", 11, 2, 2)]
     nel = 10 if quick else 60
     stats, total, cells, samples = [], 0, set(), []
     worst = {}
@@ -79,9 +82,9 @@ def run(prop, tier, seed):
         elems = []
         for i in range(len(sh.pieces)):
             for u in range(sh.pieces[i]):
-                for l in range(maxl + 1):
+                for l in (range(maxl + 1) if maxl <= 6 else range(8, maxl + 1)):
                     g = sh.U // 2 ** l
-                    for k in range(2 ** l):
+                    for k in (range(2 ** l) if maxl <= 6 else sorted({0, 1, 2 ** l - 1, 2 ** (l - 1), rng.randrange(2 ** l), rng.randrange(2 ** l)})):
                         x0 = sh.starts[i] + u * sh.U + k * g
                         for lt in range(tlevels + 1):
                             gt = sh.UT // 2 ** lt
